@@ -553,5 +553,524 @@ pub fn run_held(env: &mut Env, rep: &mut Report, st: &mut Stats, rng: &mut Rng, 
     }
 }
 
+// ------------------------------------------------------------------ forwarded frames (AsyncClient::forward_message*)
+//
+// `forward_message` / `forward_message_with_timeout` register a CALLER-CHOSEN request id (a proxy relays
+// downstream frames over a shared upstream client). They are a call kind of their own with their own
+// registration/cleanup code path, so every way a call can end without a response is driven through
+// them as well: timeout (fake server silent, and the forced reader-vs-timeout orders the probe points
+// of that path allow), task abort / future drop at the probe points and while waiting. After each:
+// pending table exactly as before the forward (checked BEFORE any late response could clear a leaked
+// entry), a RETRY forward under the SAME id is accepted, written once and gets its own response, the
+// late response of the abandoned forward reaches nobody, bystanders and the next ordinary call get
+// their own tokens, pending table empty at the end.
+//
+// The forward path has no `registered` and no `timeout.before_remove` probe (only the shared
+// write.locked / written / reader.* points fire, with the caller-chosen id), so the order
+// "timeout fired, entry not yet removed, reader delivers" cannot be forced for forwards.
+
+const FK: Kind = Kind::Async;
+
+struct FwdCase<'a> {
+    ctx: &'a str,
+    replay: &'a Value,
+    /// index of the abandoned (timed out / aborted / dropped / completed) forward
+    x: usize,
+    fid: u64,
+    xtok: u64,
+    /// the fake server has already sent the response for X
+    x_answered: bool,
+    /// X is expected on the wire (false: it was cancelled while still waiting for the writer lock)
+    x_written_expected: bool,
+}
+
+fn fwd_x_seen(rep: &mut Report, srv: &Srv, f: &FwdCase) -> bool {
+    let seen = srv.req_by_token(f.xtok).is_some();
+    if f.x_written_expected && !seen {
+        rep.count("forward_cancelled_before_write", 1);
+    }
+    if !f.x_written_expected && seen {
+        rep.violation(
+            format!("C06:cancelled-request-sent:{}:{}", FK.name(), f.ctx),
+            "a forward cancelled while it was still waiting for the writer lock nevertheless put its frame on the wire".to_string(),
+            f.replay.clone(),
+        );
+    }
+    seen
+}
+
+/// What must hold after a forward ended without (or with) its response. Two orders of the two
+/// follow-up events are driven: the late response first, then the retry under the same id; or the
+/// retry first (answered), then the late response.
+fn fwd_aftermath(env: &mut Env, rep: &mut Report, st: &mut Stats, cli: &Cli, srv: &mut Srv, calls: &mut Calls, rng: &mut Rng, f: &FwdCase) {
+    let (ctx, replay) = (f.ctx, f.replay);
+    let late_first = f.x_answered || rng.coin();
+    st.bump(format!("forward-aftermath|{}", if late_first { "late-response-then-retry" } else { "retry-then-late-response" }));
+    let mut late_sent = f.x_answered;
+    if late_first {
+        // an ordinary call as a barrier: requests reach the server in write order and the reader
+        // handles responses in arrival order, so once this call has its answer the late response of
+        // X has been handled (and whether X went out at all is decided)
+        let ytok = env.token();
+        let y = calls.launch(env, cli, ytok, rng.usize_below(24), None);
+        if !srv.wait_token(ytok, STEP_MAX) {
+            let miss = calls.wait(&[y], Duration::from_millis(200));
+            if miss.is_empty() {
+                judge(rep, st, calls, &[y], srv, FK, &format!("{ctx}:next-call"), true, replay);
+            } else {
+                report_hang(rep, env, "next-call-not-sent", FK, ctx, &miss, calls, replay);
+            }
+            return;
+        }
+        fwd_x_seen(rep, srv, f);
+        if let (Some(r), false) = (srv.req_by_token(f.xtok), late_sent) {
+            srv.answer(&r, false);
+            late_sent = true;
+            rep.count("late_responses_sent_for_abandoned_forward", 1);
+        }
+        if let Some(r) = srv.req_by_token(ytok) {
+            srv.answer(&r, false);
+        }
+        let miss = calls.wait(&[y], WINDOW);
+        if !miss.is_empty() {
+            report_hang(rep, env, "healthy-call-hang", FK, ctx, &miss, calls, replay);
+            return;
+        }
+        judge(rep, st, calls, &[y], srv, FK, &format!("{ctx}:next-call"), true, replay);
+    }
+    // RETRY under the same caller-chosen id
+    let rtok = env.token();
+    let rto = if rng.coin() { None } else { Some(Duration::from_secs(40)) };
+    let r = calls.launch_fwd(env, cli, f.fid, rtok, rng.usize_below(24), rto, false);
+    rep.count("forward_retries_with_same_id", 1);
+    // the retry reaches the server, or it returns without having been written (refused)
+    let deadline = std::time::Instant::now() + STEP_MAX;
+    let mut r_seen = false;
+    while !r_seen && std::time::Instant::now() < deadline {
+        r_seen = srv.wait_token(rtok, Duration::from_millis(10));
+        if !r_seen && calls.wait(&[r], Duration::ZERO).is_empty() {
+            // returned: a frame written before the return is at most a moment behind
+            r_seen = srv.wait_token(rtok, Duration::from_millis(150));
+            break;
+        }
+    }
+    if !r_seen {
+        srv.poll();
+        let miss = calls.wait(&[r], Duration::from_millis(500));
+        if miss.is_empty() {
+            match &calls.v[r].res {
+                Some(CallRes::Err(e)) if e.contains("already pending") || e.contains("AlreadyExists") => rep.violation(
+                    format!("C06:forward-retry-refused:{}:{ctx}", FK.name()),
+                    format!(
+                        "after `{ctx}` ended forward id {} (token {}) without a response, a retry forward with the SAME caller-chosen id (token {rtok}) was refused: Err({e}); \
+                         verif_pending_len() = {}; the abandoned forward left its id registered; trace: {}",
+                        f.fid,
+                        f.xtok,
+                        cli.pending_len(),
+                        ps_trace()
+                    ),
+                    replay.clone(),
+                ),
+                _ => judge(rep, st, calls, &[r], srv, FK, &format!("{ctx}:retry"), true, replay),
+            }
+        } else {
+            report_hang(rep, env, "retry-not-sent", FK, ctx, &miss, calls, replay);
+        }
+        return;
+    }
+    let x_seen = fwd_x_seen(rep, srv, f);
+    let Some(rreq) = srv.req_by_token(rtok) else { return };
+    if rreq.header.id != f.fid {
+        rep.violation(
+            format!("C06:forward-id-rewritten:{}:{ctx}", FK.name()),
+            format!("the retry frame was built with request id {} and reached the server with id {}", f.fid, rreq.header.id),
+            replay.clone(),
+        );
+    }
+    srv.answer(&rreq, false);
+    let miss = calls.wait(&[r], WINDOW);
+    if !miss.is_empty() {
+        report_hang(rep, env, "retry-hang", FK, ctx, &miss, calls, replay);
+        return;
+    }
+    judge(rep, st, calls, &[r], srv, FK, &format!("{ctx}:retry"), true, replay);
+    if matches!(calls.v[r].res, Some(CallRes::Ok(_))) {
+        rep.count("forward_retries_got_own_response", 1);
+    }
+    if let (Some(xr), false, true) = (srv.req_by_token(f.xtok), late_sent, x_seen) {
+        // the late response of the abandoned forward: nobody is registered under that id any more
+        srv.answer(&xr, false);
+        rep.count("late_responses_sent_for_abandoned_forward", 1);
+    }
+    // next ordinary call; everything still unanswered (bystanders, lock holder) in random order
+    let ztok = env.token();
+    let z = calls.launch(env, cli, ztok, rng.usize_below(24), if rng.coin() { None } else { Some(Duration::from_secs(40)) });
+    if !srv.wait_token(ztok, STEP_MAX) {
+        let miss = calls.wait(&[z], Duration::from_millis(200));
+        if miss.is_empty() {
+            judge(rep, st, calls, &[z], srv, FK, &format!("{ctx}:next-call"), true, replay);
+        } else {
+            report_hang(rep, env, "next-call-not-sent", FK, ctx, &miss, calls, replay);
+        }
+        return;
+    }
+    let mut rest: Vec<Req> = srv.reqs.iter().filter(|q| q.token != f.xtok && !srv.sent_tokens.contains(&q.token)).cloned().collect();
+    rng.shuffle(&mut rest);
+    for q in &rest {
+        srv.answer(q, false);
+    }
+    let others: Vec<usize> = calls.all().into_iter().filter(|i| *i != f.x).collect();
+    let miss = calls.wait(&others, WINDOW);
+    srv.poll();
+    if !miss.is_empty() {
+        report_hang(rep, env, "healthy-call-hang", FK, ctx, &miss, calls, replay);
+        return;
+    }
+    judge(rep, st, calls, &others, srv, FK, &format!("{ctx}:next-call"), true, replay);
+    let copies = srv.reqs.iter().filter(|q| q.token == rtok).count();
+    if copies != 1 {
+        rep.violation(
+            format!("C06:forward-retry-duplicated:{}:{ctx}", FK.name()),
+            format!("the retry forward (id {}, token {rtok}) reached the server {copies} times", f.fid),
+            replay.clone(),
+        );
+    }
+    let x_copies = srv.reqs.iter().filter(|q| q.token == f.xtok).count();
+    if x_copies > 1 {
+        rep.violation(
+            format!("C06:forward-duplicated:{}:{ctx}", FK.name()),
+            format!("the abandoned forward (id {}, token {}) reached the server {x_copies} times", f.fid, f.xtok),
+            replay.clone(),
+        );
+    }
+    check_residue(rep, cli, 0, FK, &format!("forward:{ctx}:end"), replay);
+    check_panic(rep, FK, ctx, replay);
+}
+
+/// Bystanders of a forward scenario: `n` ordinary calls (ids 1..=n) and, when n > 0, one more
+/// FORWARD in flight under another caller-chosen id. Returns the number of registered calls.
+fn fwd_bystanders(env: &mut Env, cli: &Cli, srv: &mut Srv, calls: &mut Calls, n: usize, rng: &mut Rng) -> Option<usize> {
+    if !launch_serial(env, cli, calls, FK, n, 1, None, rng) || !srv.wait_reqs(n, STEP_MAX) {
+        return None;
+    }
+    if n == 0 {
+        return Some(0);
+    }
+    let (bid, btok) = (env.fwd_id(), env.token());
+    calls.launch_fwd(env, cli, bid, btok, rng.usize_below(24), if rng.coin() { None } else { Some(Duration::from_secs(40)) }, false);
+    if !srv.wait_token(btok, STEP_MAX) {
+        return None;
+    }
+    Some(n + 1)
+}
+
+#[derive(Clone, Copy, Debug, PartialEq, Eq, Hash)]
+pub enum FOrder {
+    /// server silent until after the timeout
+    NoResponse,
+    /// response read by the reader, reader parked at reader.received (entry not yet looked up) until the
+    /// forward's timeout fired and the forward returned; then the reader must find nothing
+    ReceivedThenTimeout,
+    /// reader parked at reader.before_deliver (entry already taken) until the forward's timeout fired
+    /// and it returned; then the reader delivers to nobody
+    RemovedThenTimeout,
+    /// response well before the timeout: own token; the id is then reused by the next forward
+    ResponseWins,
+}
+const FORDERS: [FOrder; 4] = [FOrder::NoResponse, FOrder::ReceivedThenTimeout, FOrder::RemovedThenTimeout, FOrder::ResponseWins];
+
+fn run_fwd_race(env: &mut Env, rep: &mut Report, st: &mut Stats, order: FOrder, bystanders: usize, rng: &mut Rng, case: u64) {
+    let ctx = format!("forward-race:{order:?}");
+    let replay = json!({"scenario": "forward-race", "client": FK.name(), "order": format!("{order:?}"), "bystanders": bystanders, "seed": rep.seed, "case": case});
+    env.hb_reset();
+    ps_reset();
+    let _ = take_last_panic();
+    let (cli, mut srv) = match env.connect(FK, true) {
+        Ok(x) => x,
+        Err(e) => return rep.inconclusive(format!("{} / {ctx}: {e}", FK.name())),
+    };
+    rep.eval();
+    rep.distinct(&("forward-race", order, bystanders));
+    let p = |w: &str| FK.pt(w).unwrap();
+    let mut calls = Calls::new();
+    let Some(registered) = fwd_bystanders(env, &cli, &mut srv, &mut calls, bystanders, rng) else {
+        return rep.inconclusive(format!("{} / {ctx}: bystanders not registered/seen", FK.name()));
+    };
+    let fid = env.fwd_id();
+    let to = Duration::from_millis(if order == FOrder::ResponseWins { 20_000 } else { 80 + rng.below(80) });
+    match order {
+        FOrder::ReceivedThenTimeout => ps_park((p("reader.received"), fid)),
+        FOrder::RemovedThenTimeout => ps_park((p("reader.before_deliver"), fid)),
+        _ => {}
+    }
+    let xtok = env.token();
+    let x = calls.launch_fwd(env, &cli, fid, xtok, rng.usize_below(24), Some(to), false);
+    if !srv.wait_token(xtok, STEP_MAX) {
+        ps_release_all();
+        return rep.inconclusive(format!("{} / {ctx}: forwarded request not seen by the server", FK.name()));
+    }
+    let xreq = srv.req_by_token(xtok).unwrap();
+    if xreq.header.id != fid {
+        rep.violation(
+            format!("C06:forward-id-rewritten:{}:{ctx}", FK.name()),
+            format!("the forwarded frame was built with request id {fid} and reached the server with id {}", xreq.header.id),
+            replay.clone(),
+        );
+    }
+    let mut forced = true;
+    match order {
+        FOrder::NoResponse => {}
+        FOrder::ReceivedThenTimeout => {
+            srv.answer(&xreq, false);
+            forced &= ps_wait_parked((p("reader.received"), fid), STEP_MAX);
+        }
+        FOrder::RemovedThenTimeout => {
+            srv.answer(&xreq, false);
+            // the reader parks with the entry in hand, or the timeout won the race to the entry
+            let deadline = std::time::Instant::now() + STEP_MAX;
+            loop {
+                if ps_wait_parked((p("reader.before_deliver"), fid), Duration::from_millis(5)) {
+                    break;
+                }
+                if calls.wait(&[x], Duration::ZERO).is_empty() || std::time::Instant::now() > deadline {
+                    forced = ps_wait_parked((p("reader.before_deliver"), fid), Duration::from_millis(20));
+                    break;
+                }
+            }
+        }
+        FOrder::ResponseWins => srv.answer(&xreq, false),
+    }
+    let miss = calls.wait(&[x], WINDOW);
+    if !miss.is_empty() {
+        ps_release_all();
+        report_hang(rep, env, "timeout-hang", FK, &ctx, &miss, &calls, &replay);
+        return;
+    }
+    // residue BEFORE the reader goes on / before any late response: exactly the bystanders are registered
+    check_residue(rep, &cli, registered, FK, &format!("forward:{ctx}:after-return"), &replay);
+    match order {
+        FOrder::ReceivedThenTimeout => ps_release((p("reader.received"), fid)),
+        FOrder::RemovedThenTimeout => ps_release((p("reader.before_deliver"), fid)),
+        _ => {}
+    }
+    let x_ok = matches!(calls.v[x].res, Some(CallRes::Ok(_)));
+    let x_timeout = matches!(&calls.v[x].res, Some(CallRes::Err(e)) if e.starts_with("Io:TimedOut") || e.contains("timed out"));
+    let achieved = forced
+        && match order {
+            FOrder::NoResponse | FOrder::ReceivedThenTimeout | FOrder::RemovedThenTimeout => !x_ok,
+            FOrder::ResponseWins => x_ok,
+        };
+    st.bump(format!("forward-race|{order:?}|{}", if achieved { "order-forced" } else { "order-not-achieved" }));
+    judge(rep, st, &calls, &[x], &srv, FK, &ctx, order == FOrder::ResponseWins, &replay);
+    if order != FOrder::ResponseWins {
+        rep.count(if x_ok { "forward_race_timed_forward_got_own_response" } else { "forward_race_timed_forward_got_err" }, 1);
+        if x_timeout {
+            rep.count("forward_timeouts_observed", 1);
+        }
+    }
+    let f = FwdCase { ctx: &ctx, replay: &replay, x, fid, xtok, x_answered: order != FOrder::NoResponse, x_written_expected: true };
+    fwd_aftermath(env, rep, st, &cli, &mut srv, &mut calls, rng, &f);
+    if case < 2 {
+        rep.sample(json!({"forward_race": replay, "x_result": format!("{:?}", calls.v[x].res), "order_forced": achieved, "trace": ps_trace()}));
+    }
+}
+
+pub fn run_fwd_races(env: &mut Env, rep: &mut Report, st: &mut Stats, rng: &mut Rng, args: &Args) {
+    let rounds = args.budget(5, 20);
+    let mut case = 0u64;
+    for round in 0..rounds {
+        for order in FORDERS {
+            for by in [0usize, 3] {
+                if env.stop() {
+                    rep.count("forward_scenarios_not_run_wall_cap", 1);
+                    continue;
+                }
+                let by = if round > 0 && by > 0 { 1 + rng.usize_below(8) } else { by };
+                let mut r = rng.fork(0xF0AD_0000 + case);
+                let ts = std::time::Instant::now();
+                run_fwd_race(env, rep, st, order, by, &mut r, case);
+                st.timed(format!("forward-race {order:?} by={by}"), ts);
+                case += 1;
+            }
+        }
+    }
+    for order in FORDERS {
+        if !st.sched.contains_key(&format!("forward-race|{order:?}|order-forced")) && rep.violations.is_empty() {
+            rep.inconclusive(format!("forward race order {order:?} was never forced"));
+        }
+    }
+}
+
+#[derive(Clone, Copy, Debug, PartialEq, Eq, Hash)]
+pub enum FTrig {
+    /// cancelled while waiting for the writer lock (another call is parked holding it): registered, never written
+    LockWait,
+    WriteLocked,
+    Written,
+    /// cancelled while awaiting the response (trigger: the fake server saw the frame)
+    Waiting,
+    /// cancelled while the reader is parked at reader.received with the response in hand
+    ReaderReceived,
+    /// cancelled while the reader is parked at reader.before_deliver (entry already taken)
+    ReaderBeforeDeliver,
+}
+const FTRIGS: [FTrig; 6] = [FTrig::LockWait, FTrig::WriteLocked, FTrig::Written, FTrig::Waiting, FTrig::ReaderReceived, FTrig::ReaderBeforeDeliver];
+
+#[derive(Clone, Copy, Debug, PartialEq, Eq, Hash)]
+pub enum EndBy {
+    /// JoinHandle::abort on the task awaiting the forward
+    Abort,
+    /// the task stays alive and drops the forward future (select! against a signal)
+    DropFuture,
+}
+
+fn run_fwd_cancel(env: &mut Env, rep: &mut Report, st: &mut Stats, trig: FTrig, by_: EndBy, bystanders: usize, rng: &mut Rng, case: u64) {
+    let ctx = format!("forward-cancel@{trig:?}/{by_:?}");
+    let replay = json!({"scenario": "forward-cancel", "client": FK.name(), "trigger": format!("{trig:?}"), "end": format!("{by_:?}"), "bystanders": bystanders, "seed": rep.seed, "case": case});
+    let p = |w: &str| FK.pt(w).unwrap();
+    let point = match trig {
+        FTrig::LockWait | FTrig::Waiting => None,
+        FTrig::WriteLocked => Some(p("write.locked")),
+        FTrig::Written => Some(p("written")),
+        FTrig::ReaderReceived => Some(p("reader.received")),
+        FTrig::ReaderBeforeDeliver => Some(p("reader.before_deliver")),
+    };
+    env.hb_reset();
+    ps_reset();
+    let _ = take_last_panic();
+    let (cli, mut srv) = match env.connect(FK, true) {
+        Ok(x) => x,
+        Err(e) => return rep.inconclusive(format!("{} / {ctx}: {e}", FK.name())),
+    };
+    rep.eval();
+    rep.distinct(&("forward-cancel", trig, by_, bystanders));
+    let mut calls = Calls::new();
+    let Some(mut registered) = fwd_bystanders(env, &cli, &mut srv, &mut calls, bystanders, rng) else {
+        return rep.inconclusive(format!("{} / {ctx}: bystanders not registered/seen", FK.name()));
+    };
+    let mut holder = None;
+    if trig == FTrig::LockWait {
+        // an ordinary call (next id of the client's own counter) parked while it holds the writer lock
+        let zid = bystanders as u64 + 1;
+        ps_park((p("write.locked"), zid));
+        let ztok = env.token();
+        calls.launch(env, &cli, ztok, 5, None);
+        if !ps_wait_parked((p("write.locked"), zid), STEP_MAX) {
+            ps_release_all();
+            return rep.inconclusive(format!("{} / {ctx}: lock holder never reached write.locked", FK.name()));
+        }
+        holder = Some(zid);
+        registered += 1;
+    }
+    let fid = env.fwd_id();
+    if let Some(pt) = point {
+        ps_park((pt, fid));
+    }
+    let xtok = env.token();
+    let seen_before_x = srv.reqs.len();
+    let x = calls.launch_fwd(env, &cli, fid, xtok, rng.usize_below(24), if rng.coin() { None } else { Some(Duration::from_secs(40)) }, by_ == EndBy::DropFuture);
+    let mut x_answered = false;
+    let mut reached;
+    match trig {
+        FTrig::LockWait => {
+            // no `registered` probe on the forward path: the registration is observed in the pending table
+            let deadline = std::time::Instant::now() + STEP_MAX;
+            loop {
+                reached = cli.pending_len() == registered + 1;
+                if reached || std::time::Instant::now() > deadline {
+                    break;
+                }
+                std::thread::sleep(Duration::from_millis(1));
+            }
+            // let the task go on to the writer lock it cannot get (coverage only; both sides are legitimate)
+            std::thread::sleep(Duration::from_millis(3));
+        }
+        FTrig::WriteLocked | FTrig::Written => reached = ps_wait_parked((point.unwrap(), fid), STEP_MAX),
+        FTrig::Waiting => reached = srv.wait_reqs(seen_before_x + 1, STEP_MAX),
+        FTrig::ReaderReceived | FTrig::ReaderBeforeDeliver => {
+            reached = srv.wait_reqs(seen_before_x + 1, STEP_MAX);
+            if let Some(r) = srv.req_by_token(xtok) {
+                srv.answer(&r, false);
+                x_answered = true;
+            }
+            reached &= ps_wait_parked((point.unwrap(), fid), STEP_MAX);
+        }
+    }
+    if !reached {
+        ps_release_all();
+        return rep.inconclusive(format!("{} / {ctx}: trigger point not reached; trace: {}", FK.name(), ps_trace()));
+    }
+    let caller_side = matches!(trig, FTrig::WriteLocked | FTrig::Written);
+    let release = || {
+        if caller_side {
+            ps_release((point.unwrap(), fid));
+        }
+    };
+    let how = match by_ {
+        EndBy::Abort => calls.abort_and_join(env, x, WINDOW, release),
+        EndBy::DropFuture => calls.drop_future_and_wait(x, WINDOW, release),
+    };
+    st.bump(format!("forward-cancel|{trig:?}|{by_:?}|{}", how.split(':').next().unwrap_or("")));
+    match how.as_str() {
+        "cancelled" => rep.count(if by_ == EndBy::Abort { "forward_tasks_aborted" } else { "forward_futures_dropped" }, 1),
+        "completed" => {}
+        "join-timeout" => {
+            ps_release_all();
+            let gap = env.hb.max_gap_ms();
+            env.hangs_left -= 1;
+            if gap > 1000 {
+                rep.inconclusive(format!("cancelled forward did not finish but the machine stalled {gap} ms"));
+            } else {
+                rep.violation(format!("C06:cancel-hang:{}:{ctx}", FK.name()), format!("a cancelled forward was still alive {} s after the cancellation; trace: {}", WINDOW.as_secs(), ps_trace()), replay.clone());
+            }
+            return;
+        }
+        other => {
+            rep.violation(format!("C06:panic:{}:{ctx}:task", FK.name()), format!("the cancelled forward task ended with {other}; last panic {:?}", take_last_panic()), replay.clone());
+        }
+    }
+    // residue, before the parked reader goes on and before any late response
+    if how == "cancelled" {
+        check_residue(rep, &cli, registered, FK, &format!("forward:{ctx}:after-cancel"), &replay);
+    }
+    if let (Some(pt), false) = (point, caller_side) {
+        ps_release((pt, fid));
+    }
+    if let Some(zid) = holder {
+        ps_release((p("write.locked"), zid));
+    }
+    if how == "completed" {
+        judge(rep, st, &calls, &[x], &srv, FK, &ctx, false, &replay);
+    }
+    let f = FwdCase { ctx: &ctx, replay: &replay, x, fid, xtok, x_answered, x_written_expected: trig != FTrig::LockWait };
+    fwd_aftermath(env, rep, st, &cli, &mut srv, &mut calls, rng, &f);
+    if case < 2 {
+        rep.sample(json!({"forward_cancel": replay, "end": how, "trace": ps_trace()}));
+    }
+}
+
+pub fn run_fwd_cancels(env: &mut Env, rep: &mut Report, st: &mut Stats, rng: &mut Rng, args: &Args) {
+    let rounds = args.budget(4, 20);
+    let mut case = 0u64;
+    for round in 0..rounds {
+        for trig in FTRIGS {
+            for by_ in [EndBy::Abort, EndBy::DropFuture] {
+                for by in [0usize, 2] {
+                    if env.stop() {
+                        rep.count("forward_scenarios_not_run_wall_cap", 1);
+                        continue;
+                    }
+                    let by = if round > 0 && by > 0 { 1 + rng.usize_below(6) } else { by };
+                    let mut r = rng.fork(0xFCA9_0000 + case);
+                    let ts = std::time::Instant::now();
+                    run_fwd_cancel(env, rep, st, trig, by_, by, &mut r, case);
+                    st.timed(format!("forward-cancel {trig:?} {by_:?} by={by}"), ts);
+                    case += 1;
+                }
+            }
+        }
+    }
+}
+
 #[allow(dead_code)]
 fn _unused(_: Value) {}
